@@ -84,6 +84,22 @@ SCRIPTS = {
     # flush swap between the two captures of a read (#5)
     "swap-inside-read": [_w(1, 1), _w(2, 1), _w(3, 1), _s("GetBegin", k=2), _s("FlushStart"), _s("FlushSwap"), _s("GetEnd"),
                          _w(1, 2), _w(2, 2), _w(3, 2), _s("ScanBegin", p=ALLP), _s("FlushStart"), _s("FlushSwap"), _s("ScanEnd")],
+    # a flush dequeues its memtable while a Get holds its snapshot of the memtable list; a scan whose iterator was returned
+    # (or is half consumed) while the flush swaps in
+    "swap-inside-memlist-read": [_w(1, 1), _w(2, 1), _w(3, 1), _w(1, 2), _s("FlushStart"), _s("GetBegin", k=2, at="snap"), _s("FlushSwap"),
+                                 _s("GetEnd"), _w(2, 2), _w(3, 2), _w(1, 1), _s("FlushStart"), _s("ScanBegin", p=ALLP, at="returned"),
+                                 _s("FlushSwap"), _s("ScanEnd"), _w(2, 1), _w(3, 1), _w(1, 2), _s("FlushStart"), _s("ScanBegin", p=ALLP, at="mid"),
+                                 _s("FlushSwap"), _s("ScanEnd")],
+    # a flush (later a compaction) parked before its swap is let go inside DB.Checkpoint: the checkpoint must still restore
+    # to the contents at the call (capture of tables and WAL rotation are one critical section)
+    "ckpt-races-swaps": [_w(1, 1), _w(2, 1), _w(3, 1), _w(1, 2), _s("FlushStart"), _s("Checkpoint", race=True), _s("FlushSwap"),
+                         _s("SaveWal", id=1), _s("SaveDoc", id=1), _w(2, 2), _w(3, 2), _s("FlushStart"), _s("FlushSwap"), _s("CompactPick"),
+                         _w(1, 1), _s("Checkpoint", race=True), _s("CompactSwap"), _s("SaveWal", id=2), _s("SaveDoc", id=2)],
+    # a flush builds its table while a compaction is creating its output file (both queues share the TableWriter's ids)
+    "flush-build-inside-compaction-build": [_w(1, 1), _w(2, 1), _w(3, 1), _s("FlushStart"), _s("FlushSwap"), _w(1, 2), _w(2, 2), _w(3, 2),
+                                            _s("FlushStart"), _s("FlushSwap"), _w(1, 1), _w(2, 1), _w(3, 1), _s("CompactPick", overlap=True),
+                                            _s("FlushStart"), _s("FlushSwap"), _s("CompactSwap"), _s("GetBegin", k=1), _s("GetEnd"),
+                                            _s("ScanBegin", p=ALLP), _s("ScanEnd"), _s("Checkpoint"), _s("SaveWal", id=1), _s("SaveDoc", id=1)],
     # re-open in the same directory, write and flush: table files of the checkpoint must survive (#8), then GC (same process)
     "reopen-flush-gc": [_w(1, 1), _w(2, 1), _w(3, 1), _s("FlushStart"), _s("FlushSwap"), _s("Checkpoint"), _s("SaveWal", id=1), _s("SaveDoc", id=1),
                         _s("Reopen", id=1, crash=False), _s("GcRun"), _w(1, 2), _w(2, 2), _w(3, 2), _s("FlushStart"), _s("FlushSwap"), _s("GcRun"),
@@ -106,9 +122,13 @@ def _tla_step(st):
     if a == "W":
         return "Write(%d, %d)" % (st["k"], st["v"])
     if a == "GetBegin":
-        return "GetBegin(%d)" % st["k"]
+        return 'GetBeginAt(%d, "%s")' % (st["k"], st.get("at", "between"))
     if a == "ScanBegin":
-        return "ScanBegin(%s)" % st["p"]
+        return 'ScanBeginAt(%s, "%s")' % (st["p"], st.get("at", "between"))
+    if a == "Checkpoint" and "race" in st:
+        return "CheckpointR(%s)" % ("TRUE" if st["race"] else "FALSE")
+    if a == "CompactPick" and "overlap" in st:
+        return "CompactPickO(%s)" % ("TRUE" if st["overlap"] else "FALSE")
     if a in ("SaveWal", "SaveDoc"):
         return "(\\E sv \\in saves : sv.id = %d /\\ %s(sv))" % (st["id"], a)
     if a in ("Retain", "RetainFail"):
